@@ -1,19 +1,22 @@
-From DD Require Export GC Subst Driver2.
-Definition vstate (vm lm : gmap nat nat) (k : nat) : st :=
-  St {[1%positive := tterm k]} {[tterm k := 1%positive]} {[1%positive := 1]}
-     2%positive ∅ vm lm None false [] [] None.
-Lemma st_ext (a b : st) :
-  succ a = succ b → pred a = pred b → refc a = refc b → min_free a = min_free b →
-  ite_tab a = ite_tab b → vars a = vars b → lvl2var a = lvl2var b →
-  last_len a = last_len b → rctx a = rctx b → roots a = roots b → tape a = tape b →
-  trig a = trig b → a = b.
-Proof. destruct a, b. cbn. by intros -> -> -> -> -> -> -> -> -> -> -> ->. Qed.
-Lemma init_terminal_vstate vm lm k k' :
-  init_terminal k' (vstate vm lm k) = (Ok tt, vstate vm lm k').
-Proof.
-  unfold init_terminal, modify. f_equal.
-  apply st_ext; try reflexivity.
-  - cbn.  apply insert_singleton.
-  - cbn. Show. rewrite lookup_singleton. cbn. by rewrite delete_singleton.
-  - cbn. by rewrite lookup_singleton. 
-Qed.
+From DD Require Import Pickle.
+Local Open Scope string_scope.
+Definition w0 := fold_left (fun w o => fst (step2 w 0 o))
+   [O1 (ONew [(0, 1); (1, 0); (2, 2)]); O1 (OVar 0); O1 (OVar 1); O1 (OVar 2);
+    O1 (OApply "xor" 2 (Some 3%Z) None); O1 (OApply "\/" 5 (Some (-4)%Z) None);
+    O1 (OSetRoots [8%Z])] world2_empty.
+Definition s0 := world2_get w0 0.
+Eval vm_compute in map_to_list (succ s0).
+Eval vm_compute in map_to_list (vars s0).
+Definition w1 := fst (step2 w0 0 (ODump 0 (RDict [(7, (-8)%Z); (3, 3%Z); (9, (-1)%Z)]) [8; 3; 1; 6; 7; 4]%positive [2; 0; 1])).
+Eval vm_compute in snd (step2 w0 0 (ODump 0 (RDict [(7, (-8)%Z); (3, 3%Z); (9, (-1)%Z)]) [8; 3; 1; 6; 7; 4]%positive [2; 0; 1])).
+Eval vm_compute in w_files w1 !! 0.
+Definition w2 := fst (step2 w1 1 (O1 (ONew []))).
+Eval vm_compute in snd (step2 w2 1 (OLoad 0 true)).
+Eval vm_compute in map_to_list (succ (world2_get (fst (step2 w2 1 (OLoad 0 true))) 1)).
+Eval vm_compute in snd (step2 w1 0 (OLoad 0 true)).
+Eval vm_compute in snd (step2 w1 0 (ODumpManager 5 [1;2;0])).
+Definition w3 := fst (step2 w1 0 (ODumpManager 5 [1;2;0])).
+Eval vm_compute in snd (step2 w3 2 (OLoadManager 5)).
+Eval vm_compute in bool_decide (succ (world2_get (fst (step2 w3 2 (OLoadManager 5))) 2) = succ s0).
+Definition w1' := fst (step2 w1 0 (O1 (OSetLastLen (Some 1)))).
+Eval vm_compute in snd (step2 w1' 0 (OLoad 0 true)).
